@@ -78,24 +78,26 @@ CHECKS = {
 }
 # additions after the second round of seeded changes (DESIGN.md §14)
 ADD = {
- "C01": "Field order and optionality of the reference layout come from the pinned layout table (ref/layout.json), dates may carry non-UTC locations, and the bytes returned for the previous message are re-checked after later encode calls. The buffer handed to the decoder is overwritten as soon as the decoder returns; comparison and re-encoding happen after that.",
- "C02": "Nested-extent family (3k/90k documents in XML, JSON and binary): a nested structure receives trailing children (an unknown-type element, altered copies of the parent's following fields); everything decoded outside that structure must equal what the undisturbed message decodes to, or the input is rejected.",
- "C03": "The bytes returned for the previous tree are re-checked after later encode calls. Every tree is also encoded through one long-lived encoder after a filler message and Clear(); the bytes must equal the independent generator's.",
+ "C01": "Large family (88/4400): one byte string of 8000 B..600 KiB or 200-1200 batch items. Field order and optionality of the reference layout come from the pinned layout table (ref/layout.json), dates may carry non-UTC locations, and the bytes returned for the previous message are re-checked after later encode calls. The buffer handed to the decoder is overwritten as soon as the decoder returns; comparison and re-encoding happen after that.",
+ "C02": "JSON mutants with non-canonical member spellings (determinism). Nested-extent family (3k/90k documents in XML, JSON and binary): a nested structure receives trailing children (an unknown-type element, altered copies of the parent's following fields); everything decoded outside that structure must equal what the undisturbed message decodes to, or the input is rejected.",
+ "C03": "Text strings that are not valid UTF-8. The bytes returned for the previous tree are re-checked after later encode calls. Every tree is also encoded through one long-lived encoder after a filler message and Clear(); the bytes must equal the independent generator's.",
  "C05": "Concurrent family in isolated race-detector processes (4/64 x 25 rounds of 16 goroutines alternating the extreme versions): each output judged against its own version, and a race report in the version-gating code is a violation. Sequence family (1.5k/60k): 2-4 messages of different versions through ONE encoder, appended (binary) or with Clear() in between (binary, XML, JSON), each judged against the layout of its own version.",
- "C06": "Concurrent family: 8 goroutines decode messages with goroutine-specific custom attributes / unknown operations and must re-encode their own bytes. The isolated late-registration family also registers a NAME for a vendor operation and then decodes all 27 built-in operations written by name by the harness's own XML/JSON writers.",
+ "C06": "Typed response payloads under Pending/Undone; object types registered at run time under vendor codes; one batch item value decoded into twice. Concurrent family: 8 goroutines decode messages with goroutine-specific custom attributes / unknown operations and must re-encode their own bytes. The isolated late-registration family also registers a NAME for a vendor operation and then decodes all 27 built-in operations written by name by the harness's own XML/JSON writers.",
  "C07": "One item in twelve is a correctly delimited frame with an invalid type byte: Recv fails, consumes exactly the frame, later messages intact. Every fifth stream item is a bare scalar (9 leaf types, padded lengths).",
- "C08": "TLS family (24/600): TLS listener over the in-memory listener with peers that stay silent, send only a record header, garbage, plain-text KMIP or leave; well-behaved TLS clients must be served meanwhile, nothing may survive the peers, and Shutdown must return with peers still stalled.",
- "C09": "Sequence family (1.5k/100k): 3-8 requests on ONE executor with Discover Versions sub-lists and handlers cancelling the request context mid-batch. Versions family: all 31 supported-version sets (shuffled) x 11 request versions inside, in gaps of, below and above the set.",
- "C10": "A plan where the Write that delivered the request reports an error. A further plan makes the server write a server-to-client request on the connection ahead of the response.",
- "C11": "Two fault kinds leave the peer healthy (io.ErrShortWrite after 5 bytes; error after complete delivery). Double-fault family (120 sampled / all 6720): the first connection fails at (kind1, op<14) and the connection that replaces it at (kind2, op<10); at most two consecutive calls may fail. Late-response family (30/3000): a net.Conn wrapper hands the frame-completing Read over only when Close is called, with the call abandoned by cancellation, deadline or Close; call returns, client recovers, census.",
+ "C08": "A peer whose TLS handshake cannot succeed must see its connection closed. TLS family (24/600): TLS listener over the in-memory listener with peers that stay silent, send only a record header, garbage, plain-text KMIP or leave; well-behaved TLS clients must be served meanwhile, nothing may survive the peers, and Shutdown must return with peers still stalled.",
+ "C09": "Activate is routed through a handler with concrete payload types. Sequence family (1.5k/100k): 3-8 requests on ONE executor with Discover Versions sub-lists and handlers cancelling the request context mid-batch. Versions family: all 31 supported-version sets (shuffled) x 11 request versions inside, in gaps of, below and above the set.",
+ "C10": "Held family (whole responses re-read after all calls); real-server family (library server, requests above its size limit). A plan where the Write that delivered the request reports an error. A further plan makes the server write a server-to-client request on the connection ahead of the response.",
+ "C11": "Stalled-write family (write outlasts the deadline) and negotiation-reconnect family (Dial loses its first connection, negotiation fails on the second). Two fault kinds leave the peer healthy (io.ErrShortWrite after 5 bytes; error after complete delivery). Double-fault family (120 sampled / all 6720): the first connection fails at (kind1, op<14) and the connection that replaces it at (kind2, op<10); at most two consecutive calls may fail. Late-response family (30/3000): a net.Conn wrapper hands the frame-completing Read over only when Close is called, with the call abandoned by cancellation, deadline or Close; call returns, client recovers, census.",
  "C13": "The scripted matrix runs through Dial and through DialCluster (with and without WithRetryTimeout): 19840 Dials. Arbitrary-lists family (4k/400k): server lists with duplicates, versions unknown to the library (0.9, 1.5, 2.x, 3.0), any order and length, and discovery failing with reasons other than 'operation not supported'.",
- "C14": "Every second transparent RSA registration uses an equal key that was never Precompute()d. A builder that produces no object for a key the property names is a violation. The transport buffer is overwritten after decoding. Held family (60/6000): 3-8 objects received on one stream, keys extracted after the last message arrived.",
- "C15": "Reads alternate between IdPlaceholder and GetIdOrPlaceholder. A fifth action stores the empty value; in half of the rounds a batch-splitting middleware passes half of the requests on in chunks through separate continuation calls.",
+ "C14": "Every second object transported as a reference wire image written from the pinned layout; EC keys labelled with algorithm EC at 1.3+. Every second transparent RSA registration uses an equal key that was never Precompute()d. A builder that produces no object for a key the property names is a violation. The transport buffer is overwritten after decoding. Held family (60/6000): 3-8 objects received on one stream, keys extracted after the last message arrived.",
+ "C15": "Items resolving an explicit identifier between sets and reads; Batch Order Option absent/true/false. Reads alternate between IdPlaceholder and GetIdOrPlaceholder. A fifth action stores the empty value; in half of the rounds a batch-splitting middleware passes half of the requests on in chunks through separate continuation calls.",
  "C16": "Repeated-shutdown family (45/1500): two concurrent Shutdown calls, a second call while the first waits, listener closed by the owner first; verdicts use the first return.",
- "C12": "BatchResult.Unwrap() must surface any failed item with status, reason and message; the server's message contains percent signs.",
- "C20": "Decode inputs in XML/JSON carry enumeration values by name half of the time; a quarter of the message encodes go through the package-level Marshal functions; histories contain encode calls that panic half way (a Go map as attribute value) and are recovered.",
- "C17": "Isolated family with vendor enumerations under extension tags whose Go type names equal standard tag names (State, ObjectType).",
- "C19": "Substituted-message family (6k/300k): a middleware passes on a message with another continuation option, version or item list; handler executions and response must equal those of a middleware-free executor given that message. Stage results are logged on the error path too. The server chains also run every program over a core that panics, returns an error, or (message chain) rejects the protocol version; the reference interpreter models what the innermost stage gets back.",
+ "C12": "Response items without Result Status for every entry point; reason Operation Not Supported in the shape enumeration. BatchResult.Unwrap() must surface any failed item with status, reason and message; the server's message contains percent signs.",
+ "C20": "Histories contain panicking-and-recovered encodes on long-lived encoders too. Decode inputs in XML/JSON carry enumeration values by name half of the time; a quarter of the message encodes go through the package-level Marshal functions; histories contain encode calls that panic half way (a Go map as attribute value) and are recovered.",
+ "C04": "OASIS variations with XML attributes in another order; isolated race-detector family (2/60 x 15 rounds of 8 goroutines producing documents with unnamed enumeration values; a race inside package ttlv is a violation); isolated family reading standard names after vendor values were registered for four enumerations.",
+ "C18": "Lexical variants include date-times whose notation and instant lie on different sides of the year 0/9999 boundaries, and XML attributes in another order.",
+ "C17": "Every enumeration value also as a generic value under another element; mask UnmarshalText into a non-zero destination. Isolated family with vendor enumerations under extension tags whose Go type names equal standard tag names (State, ObjectType).",
+ "C19": "Shared-options family: clients configured from middleware slices sharing a backing array. Substituted-message family (6k/300k): a middleware passes on a message with another continuation option, version or item list; handler executions and response must equal those of a middleware-free executor given that message. Stage results are logged on the error path too. The server chains also run every program over a core that panics, returns an error, or (message chain) rejects the protocol version; the reference interpreter models what the innermost stage gets back.",
 }
 for _k, _v in ADD.items():
     CHECKS[_k]["text"] += " " + _v
